@@ -246,19 +246,22 @@ impl ServerInner {
             } => {
                 self.stopping = true;
 
-                // Signal accept thread to stop.
-                // Signal is non-blocking; we wait for thread to stop later.
-                self.waker_queue.wake(WakerInterest::Stop);
-
-                #[cfg(actix_net_verif)]
-                crate::verif::point(crate::verif::Point::AfterStopWake);
-
-                // send stop signal to workers
+                // Send stop signal to workers first: when the accept thread stops it drops the
+                // sending halves of the workers' connection channels, and a worker that sees its
+                // channel closed before it has received `Stop` exits at once, dropping the
+                // connections it is still serving.
                 let workers_stop = self
                     .worker_handles
                     .iter()
                     .map(|worker| worker.stop(graceful))
                     .collect::<Vec<_>>();
+
+                #[cfg(actix_net_verif)]
+                crate::verif::point(crate::verif::Point::AfterStopWake);
+
+                // Signal accept thread to stop.
+                // Signal is non-blocking; we wait for thread to stop later.
+                self.waker_queue.wake(WakerInterest::Stop);
 
                 if graceful {
                     // wait for all workers to shut down
